@@ -43,6 +43,10 @@ def run(c):
         V, B = numpy.asarray(res[0]), numpy.asarray(res[1])
     else:
         V, B = numpy.asarray(res), None
+    if V.dtype.kind == "M":
+        # datetime results: day counts, NaT as NaN
+        nat = numpy.isnat(V)
+        V = numpy.where(nat, numpy.nan, V.astype("M8[D]").astype(numpy.int64).astype(float))
     matrix = stat in ("covariance", "corrcoef")
     kshape = (K, K) if matrix else ((K,) if (K > 1 or c.get("force2d")) else ())
     shape = ish + kshape
